@@ -231,7 +231,9 @@ def unsafe_protected_names():
             "..\\.bs-hidden.txt", "docs/../../../outside/.hidden5.csv", "../../outside/noext2"]
 
 
-def build_case(seed: int, layout: str, focus: str = "names"):
+def build_case(seed: int, layout: str, focus: str = "names", limit: int | None = None):
+    """``limit``: the per-member limit the case runs under (configure_archive_extraction(max_memory_size=limit)); members just above it are added,
+    which are oversize under that configuration although far below the 10 MiB default."""
     rng = random.Random(f"c09:{seed}")
     canaries = _canaries()
     fam = archives.family(layout)
@@ -251,7 +253,7 @@ def build_case(seed: int, layout: str, focus: str = "names"):
     # name cases - the phantoms focus owns them
     phantom_case = fam == "7z" and focus == "names" and rng.random() < 0.4
     info = {"hostile_dirs": 0, "escaping_dirs": 0, "links_to_protected": 0, "link_tokens": [], "oversize_linked": False, "oversize_form": None, "substreams": True,
-            "prelude": [], "twin_forbidden": [], "own": [], "twins": 0, "phantom_escapes": 0, "dups": None, "dup_tokens": [], "unsafe_protected": 0}
+            "prelude": [], "twin_forbidden": [], "own": [], "twins": 0, "phantom_escapes": 0, "dups": None, "dup_tokens": [], "unsafe_protected": 0, "limit_tokens": []}
     for i, nm in enumerate(names):
         tok = f"qa{seed % 1000:03d}{i:02d}z"
         data = f"{tok} member payload {i}\n".encode()
@@ -308,6 +310,15 @@ def build_case(seed: int, layout: str, focus: str = "names"):
             members.append(m)
             info["hostile_dirs"] += 1
             info["escaping_dirs"] += 1 if _escapes(nm) else 0
+    if limit:
+        rl = random.Random(f"c09l:{seed}")
+        for k in range(rl.randint(1, 2)):
+            tok = f"qm{seed % 100000:05d}{k}z"
+            size = rl.choice([limit + 1, limit + 2, 2 * limit, 3 * limit + 7, min(8 * limit, MEMBER_LIMIT - 1)])
+            members.append({"name": rl.choice(["", "docs/", "a/b/"]) + f"mid{k}" + rl.choice([".txt", ".csv", ".md"]),
+                            "data": (tok.encode() + b" over the configured limit\n").ljust(size, b"0"), "type": "file"})
+            info["limit_tokens"].append(tok)
+        members.append({"name": "at-limit.txt", "data": b"ql00001z exactly at the configured limit\n".ljust(limit, b"1"), "type": "file"})
     # oversize member (> 10 MiB): must be skipped without result.  In a 7z with one folder per file the listing may say something else than
     # what the coder produces: no SubStreamsInfo section at all, or a folder / sub-stream size below the limit (the tail token sits behind it)
     oversize_tok = None
@@ -372,6 +383,18 @@ def build_case(seed: int, layout: str, focus: str = "names"):
 
 
 def work(case):
+    """Runs the case under the member limit it names (default: the library's own), restoring the configuration afterwards."""
+    from sharepoint2text.parsing.extractors import archive_extractor as AE
+    saved = AE._config
+    try:
+        if case.get("limit"):
+            AE.configure_archive_extraction(max_memory_size=case["limit"])      # the library's documented way to lower the per-member limit
+        return _work(case)
+    finally:
+        AE._config = saved
+
+
+def _work(case):
     from vlib import obs
     from vlib.mon import fsaudit
     from vlib.worker import arm_cpu
@@ -379,7 +402,7 @@ def work(case):
     for leftover in os.listdir(TMP):     # a previous case's leak is that case's finding, not this one's
         shutil.rmtree(os.path.join(TMP, leftover), ignore_errors=True)
     layout = case["layout"]
-    members, canaries, expect_skip, oversize_tok, info = build_case(case["seed"], layout, case.get("focus", "names"))
+    members, canaries, expect_skip, oversize_tok, info = build_case(case["seed"], layout, case.get("focus", "names"), case.get("limit"))
     try:
         data = archives.build(layout, members, substreams=info["substreams"])
         prelude = [dict(a, data=archives.build(a["layout"], a["members"])) for a in info["prelude"]]
@@ -496,6 +519,8 @@ def work(case):
     out["oversize_form"] = info["oversize_form"]
     out["oversize_content_in_results"] = (TAIL_TOKEN in blob) or any(len(t) > MEMBER_LIMIT for t in texts)
     # twins: per archive of the sequence
+    out["limit"] = case.get("limit")
+    out["over_configured_limit_in_results"] = [t for t in info["limit_tokens"] if t in blob] if consistent else []
     out["unsafe_protected"] = info["unsafe_protected"]
     out["phantom_escapes"] = info["phantom_escapes"]
     out["dups"] = info["dups"]
@@ -575,9 +600,11 @@ def gen_cases(run):
         for r in range(run.n(40, 400) if layout in archives.ALL_LAYOUTS else run.n(12, 120)):      # TAR header formats gnu / ustar: fewer repetitions
             cid += 1
             focus = "names" if r % 5 == 4 else cycle[(r * 5 // 4) % 6]
+            # every third case runs under a lowered per-member limit (configuration x history: the limit is set after import, before the archive)
+            limit = [4096, 65536, 1 << 20, 300000][(r // 3) % 4] if r % 3 == 1 else None
             # twins: a sequence of archives, each consumed to the end (the first one a second time at the end)
             yield {"id": cid, "layout": layout, "seed": run.seed * 100000 + cid, "behaviour": "exhaust" if focus == "twins" else BEHAVIOURS[r % 4], "mutate": r % 5 == 4,
-                   "focus": focus}
+                   "focus": focus, "limit": limit}
 
 
 def main(run):
@@ -611,6 +638,8 @@ def main(run):
             if ob.get(k) and not case["mutate"]:
                 run.count(f"{'7z' if fam == '7z' else 'zip' if fam == 'zip' else 'tar'}_archives_with_{k}")
         run.count("mkdir_events_observed", ob.get("n_mkdir_events", 0))
+        if ob.get("limit") and not case["mutate"]:
+            run.count(f"{'7z' if fam == '7z' else 'zip' if fam == 'zip' else 'tar'}_archives_under_lowered_member_limit")
         if ob.get("unsafe_protected") and not case["mutate"] and fam == "7z" and ("solid" in case["layout"] or "pairs" in case["layout"]):
             run.count("7z_multi_file_folders_with_unsafe_named_protected_member")
         if ob.get("phantom_escapes") and not case["mutate"]:
@@ -664,6 +693,9 @@ def main(run):
               "oversize-member-listed-smaller" if forged else "link-to-protected-member" if ob["oversize_linked"] and focus != "dups" else None)
         if ob["dup_protected_in_results"] and not ob["oversize_content_in_results"]:
             v("hidden-or-unsupported-member-produced-result", f"tokens {ob['dup_protected_in_results'][:3]}: content of a protected member came out through a second entry ({ob['dups']}) of an ordinary member's name")
+        if ob.get("over_configured_limit_in_results"):
+            v("oversize-member-produced-result", f"the per-member limit was lowered to {ob['limit']} bytes through configure_archive_extraction(); members above it (tokens "
+              f"{ob['over_configured_limit_in_results'][:3]}) produced results", "configured-member-limit")
         if ob["twin_forbidden_in_results"]:
             v("hidden-or-unsupported-member-produced-result", f"tokens {ob['twin_forbidden_in_results'][:3]} of __MACOSX/ members whose base name equals that of an ordinary member (same archive or an archive "
               "processed earlier by the same process) are in the results", "same-base-name-twins")
@@ -687,6 +719,7 @@ def main(run):
     for k, lo in (("7z_archives_with_escaping_dirs", run.n(100, 1000)), ("7z_multi_file_folders_with_unsafe_named_protected_member", run.n(20, 200)), ("zip_archives_with_escaping_dirs", run.n(10, 100)), ("tar_archives_with_escaping_dirs", run.n(30, 300)),
                   ("tar_archives_with_links_to_protected", run.n(40, 400)), ("mkdir_events_observed", run.n(500, 5000)),
                   ("archive_sequences_with_same_base_name_twins", run.n(80, 800)), ("7z_archives_with_streamless_entries_climbing_out", run.n(60, 600)),
+                  ("7z_archives_under_lowered_member_limit", run.n(120, 1200)), ("tar_archives_under_lowered_member_limit", run.n(40, 400)), ("zip_archives_under_lowered_member_limit", run.n(10, 100)),
                   ("7z_archives_with_duplicate_member_names", run.n(60, 600)), ("tar_archives_with_duplicate_member_names", run.n(30, 300)), ("zip_archives_with_duplicate_member_names", run.n(6, 60)), ("7z_archives_with_oversize_member_listed_smaller", run.n(8, 80))):
         run.require(k, run.counters.get(k, 0), lo)
 
